@@ -62,6 +62,9 @@ class T:
         self.rl = mkresolver(yaml.SafeLoader)
         self.rd = mkresolver(yaml.SafeDumper)
         self.cons = yaml.SafeLoader('')
+        App = type('AppResolverLoader', (yaml.SafeLoader,), {})
+        App.add_implicit_resolver('!everything', __import__('re').compile(r'^.+$'), None)
+        self.others = [mkresolver(yaml.BaseLoader), mkresolver(yaml.BaseDumper), mkresolver(App)]
         self.loaders = ['SafeLoader'] + (['CSafeLoader'] if yamlapi.HAVE_C else [])
         # all (tag, regexp) pairs of the loader-side table, in order of first appearance
         seen = []
@@ -88,6 +91,10 @@ class T:
         ctx = self.ctx
         ctx.crumb({'text': t})
         ref = yaml11.classify(t)
+        # the same text is first put through resolvers with other rule sets (no implicit rules at all; an application rule):
+        # what they answer must not colour what the safe resolver answers afterwards (a memo shared across classes)
+        for other in self.others:
+            other.resolve(ScalarNode, t, (True, False))
         tag = self.rl.resolve(ScalarNode, t, (True, False))
         got = tag[len(P):] if tag.startswith(P) else tag
         ctx.case(core.h64(t), ref != 'str' or got != 'str', [cls, 'type:' + ref])
@@ -168,6 +175,15 @@ class T:
                     st, res = self.load(doc, lname)
                     if st != 'ok' or type(res) is not str or res != t:
                         self.viol(t, 'quoted/block scalar did not load as the same str', style=style, loader=lname, got=repr(res))
+            # as a mapping key: quoted -> the str itself (in particular '<<' and '=' are ordinary keys), plain -> the plain meaning
+            if t:
+                for doc, style in ((("'" + t.replace("'", "''") + "': v"), 'single-quoted key'), (('"' + t.replace('\\', '\\\\').replace('"', '\\"') + '": v'), 'double-quoted key'),
+                                   ('? !!str ' + docs[0][0] + '\n: v\n', 'tagged key')):
+                    for lname in self.loaders:
+                        st, res = self.load(doc, lname)
+                        ctx.stat('key_context_loads')
+                        if st != 'ok' or type(res) is not dict or list(res.keys()) != [t] or type(list(res.keys())[0]) is not str:
+                            self.viol(t, 'quoted scalar used as a mapping key did not load as the same str key', style=style, loader=lname, got=repr(res))
         # (v) dump side: the str must come back as the same str
         for dname in ['SafeDumper'] + (['CSafeDumper'] if yamlapi.HAVE_C else []):
             try:
